@@ -59,6 +59,15 @@ CLAIMED = {
     'C09': dict(technique='bounded symbolic execution of the real Lexer (MIR) on pairs of texts that differ only in symbolic layout bytes; token-stream equality decided by z3 per path; native comparison of both texts as scripts',
                 text='A line break (with symbolic spaces / tabs / CRs and comments around it) after each of the 25 continuation tokens lexes as no break, after each of 27 other tokens as `;`; symbolic whitespace, comment and terminator holes at token gaps of repository scripts leave the token stream unchanged; digit strings with and without `_` and an ASCII character vs its \\xHH escape give equal payloads (solver-checked terms).',
                 design='§4 C09'),
+    'C01': dict(technique='bounded symbolic execution of the MIR of main on compositions of every ordered pair of documented constructs with a symbolic integer routed across the boundary, decided by z3; lock-step complete reference semantics; native replay',
+                text='Bounded compositional claim: 14 documented constructs (operators, block, if, while, for, function, closure, list, object, string/interpolation, destructuring, spread, this, type functions) singly, in sampled (quick) / all (thorough) ordered pairs and sampled triples, each routing one unconstrained symbolic i64 inwards and outwards (values, overflow errors with stack traces, break/continue): stdout, exit status and error class equal the complete reference semantics on every path. Depth beyond the bound is outside the claim.',
+                design='§4 C01'),
+    'C02': dict(technique='bounded symbolic execution of the MIR of main: every reachable MIR assert / modelled std panic / step-budget exhaustion on a satisfiable path is a violation (replayed natively, exit 101); union over template families plus alias shapes',
+                text='Panic-freedom and termination of every path of the alias family (same cell on both sides of operators and op-assign, containers inside themselves or their comparand, printed / compared / iterated / spread / destructured), extreme integers in every position, non-ASCII text, and of the arithmetic, sequence, equality, heap and object families (thorough: all families). One open known finding: printing a self-containing value.',
+                design='§4 C02'),
+    'C19': dict(technique='bounded symbolic execution of the MIR of main with demonic HashMap/HashSet iteration order and stubbed environment, decided by z3; lock-step reference rendering; structural closure of environment calls over the MIR; native replays under varied environment',
+                text='(a) hash iteration order is a demonic choice: all orders of 3-4 collected keys give the same output; (b) the MIR calls no environment-dependent std function outside {args, current_dir, read_to_string, print, eprint, exit}, the working directory reaches no output, three spellings of the script path differ only in the diagnostic prefix; (c) one depth-4 structure built along 6 histories, aliased vs copied children, scalars and empties print identically in the stated format.',
+                design='§4 C19'),
 }
 NA_REASON = 'check not built yet in this round (DESIGN.md §7 gates); no claim is made'
 checks = []
